@@ -242,6 +242,8 @@ def check_main(spec: PropertySpec, tier: str) -> int:
                   f"{sens['skipped']} skipped")
             for m in sens.get("missed", []):
                 print(f"    MISSED-VARIANT {m}")
+            for m in sens.get("undecided", []):
+                print(f"    UNDECIDED-VARIANT (exit 2 instead of a report) {m}")
             for m in sens.get("twin_alarms", []):
                 print(f"    TWIN-ALARM {m}")
         except Exception as e:
